@@ -63,6 +63,7 @@ pub fn build(cfg: &Cfg) -> (Scenario, Vec<Box<dyn Peer>>) {
     for i in 0..cfg.responders {
         let mut r = Responder::new(r_addr(i), r_id(i), universe.clone());
         r.values = vec![format!("172.30.0.{}:{}", i + 1, 3000 + i).parse().unwrap()];
+        r.rotate_tokens = cfg.dup_ids;
         if cfg.dup_ids && i < 2 {
             let mute: SocketAddr = format!("10.0.33.{}:6881", i + 1).parse().unwrap();
             r.node_list = crate::sim::peers::NodeList::ClosestPlus(vec![(r_id(i), mute), (r_id((i + 1) % cfg.responders), mute)]);
